@@ -109,14 +109,15 @@ def modelRt (c : RtCase) : Obs × Bytes :=
   let src : Src := ⟨chunkBy c.chunks wire, c.tail⟩
   (readAll c.codec (wire.length + 1) src, wire)
 
-/-- `rt` line: model observation (with the wire bytes the model writer produced). -/
-def runModelRt (ts : List String) : String :=
+/-- `rt` line: model observation (with the wire bytes the model writer produced).  `limited`: the
+packets were written with a rate limit (`rtl <rate> …`), i.e. through `writeRateLimitedData`. -/
+def runModelRt (ts : List String) (limited : Bool := false) : String :=
   match ts with
   | "rt" :: rest =>
     match parseRt rest with
     | some c =>
       let (o, w) := modelRt c
-      let calls := (c.pkts.map (writeCalls c.codec)).flatten.map (·.length)
+      let calls := (c.pkts.map (if limited then writeCallsLimited c.codec else writeCalls c.codec)).flatten.map (·.length)
       obsStr o ++ " wire " ++ hexOfBytes w ++ " wc " ++ ",".intercalate (calls.map toString)
     | none => "bad-case"
   | _ => "bad-case"
@@ -149,6 +150,7 @@ care which transport produced the chunks (`C01_main` quantifies over all chunkin
 def runModel (ts : List String) : String :=
   match ts with
   | "rtcap" :: rest => (capExpected rest).getD "unconstrained"
+  | "rtl" :: _ :: rest => runModelRt ("rt" :: rest) true
   | "cw" :: rest =>
     match cwToRt rest with
     | some rt =>
@@ -181,6 +183,7 @@ def runHolds (caseToks obsToks : List String) : String :=
     | some rt => runHoldsRt rt obsToks
     | none => "bad-case"
   | "rtw" :: _ :: rest => runHoldsRt ("rt" :: rest) obsToks
+  | "rtl" :: _ :: rest => runHoldsRt ("rt" :: rest) obsToks
   | _ => runHoldsRt caseToks obsToks
 
 /-! ### raw streams (C05) -/
